@@ -329,6 +329,13 @@ def judge(c: dict, res: dict):
     got2 = [T.norm_stmt(s) for s in r.statements]
     if (got2 != want) if ordered else (set(got2) != set(want)):
         return {**base, "clause": "independent-decode-differs", "summary": f"{got2[:2]} vs {want[:2]}"}
+    # (3) the header the call wrote must be one a conforming reader accepts: a logical type from the other family than
+    # the physical type (the specification's compatibility table) means the combination was NOT honoured but written
+    ph, lg = int(r.options.get("physical_type", 0)), int(r.options.get("logical_type", 0))
+    if ph and lg and ((ph == 1) != (lg in (1, 3, 13))):
+        return {**base, "clause": "header-contradicts-rows",
+                "summary": f"{c['entry']} returned normally and wrote a stream declaring physical type {ph} with logical type {lg}: "
+                           f"a pair the format forbids (a reader must refuse the file)"}
     return None
 
 
